@@ -1,4 +1,4 @@
-import Memterm.Step
+import Memterm.Props.C05
 
 /-
   Executable property predicates, evaluated by the driver on the
@@ -8,6 +8,9 @@ import Memterm.Step
 namespace Memterm
 
 /-- (property id, what failed) for every predicate in scope of `c` that is false. -/
-def propFailures (_env : Env) (_pre : Screen) (_c : Call) (_post : Screen) : List (String × String) := []
+def propFailures (_env : Env) (cands : List Nat) (pre : Screen) (c : Call) (post : Screen) :
+    List (String × String) :=
+  (if C05.propC05 cands pre c post then [] else
+    [("C05", s!"expected cursor {repr (C05.expected pre c)}, got ({post.cursor.x},{post.cursor.y}), or something other than the cursor position changed")])
 
 end Memterm
